@@ -150,6 +150,70 @@ def nontrivial(j, o):
                for it, r in zip(j["req"]["items"], o["results"]))
 
 
+# ------------------------------------------------------------------ a state change the database could not take
+def locked_db_probe():
+    """While ANOTHER connection holds the write lock of the database file (a backup job, a maintenance script) past the
+    driver's busy time-out, the server is asked to Revoke and to Activate: whatever it answers, an answer of SUCCESS
+    means the new state is in effect (and stays after a restart), anything else leaves the state as it was - an
+    acknowledged transition is never one the database did not take.  Implementation only; ~10 s."""
+    import sqlite3
+    import impl_engine
+    from gen_engine import hexof
+    import random
+    r = random.Random(4)
+    E = impl_engine.ImplEngine()
+    fails = []
+
+    def line(item):
+        item = dict({"bid": None, "crypto": None}, **item)
+        return {"cmd": "req", "now": 1000, "id": {"user": "alice", "groups": None},
+                "req": {"version": 14, "ts": None, "async": None, "bopt": None, "maxsize": None, "items": [item]}}
+
+    def attr(nm, v):
+        return {"name": nm, "index": None, "value": v}
+    try:
+        uids = []
+        for _ in range(2):
+            o = E.handle(line({"op": "create", "otype": 2, "crypto": {"k": "ok", "t": hexof(16, rnd=r)}, "tmpl": {"tnames": 0, "attrs": [
+                attr("Cryptographic Algorithm", {"k": "enum", "v": 3}), attr("Cryptographic Length", {"k": "int", "v": 128}),
+                attr("Cryptographic Usage Mask", {"k": "int", "v": 12})]}}))
+            uids.append(o["results"][0]["data"]["uid"])
+        A, B = uids
+        E.handle(line({"op": "activate", "uid": A}))
+
+        def state(u):
+            return {str(x["uid"]): x["state"] for x in E.dump()["objs"]}.get(str(u))
+        for what, item, u, want_ok in (("Revoke", {"op": "revoke", "uid": A, "code": 1}, A, 3),
+                                       ("Activate", {"op": "activate", "uid": B}, B, 2)):
+            before = state(u)
+            E.engine._data_store.dispose()
+            other = sqlite3.connect(E.db, timeout=0.1, isolation_level=None)
+            try:
+                other.execute("BEGIN IMMEDIATE")
+                o = E.handle(line(item))
+            finally:
+                try:
+                    other.execute("ROLLBACK")
+                finally:
+                    other.close()
+            rs = (o.get("results") or [{}])[0]
+            ok = rs.get("status") == "ok"
+            after = state(u)
+            E.restart()
+            after_restart = state(u)
+            if ok and (after != want_ok or after_restart != want_ok):
+                fails.append(("c04:acknowledged-transition-not-in-effect:%s" % what.lower(),
+                              "%s of key %s was answered SUCCESS while another connection held the database's write lock; "
+                              "its state was %s, is %s, after a restart %s" % (what, u, before, after, after_restart)))
+            if not ok and (after != before or after_restart != before):
+                fails.append(("c04:refused-transition-took-effect:%s" % what.lower(),
+                              "%s of key %s was answered %s while the database was locked; state %s -> %s (after restart %s)"
+                              % (what, u, rs.get("reason", o.get("rejected")), before, after, after_restart)))
+    finally:
+        E.close()
+    return fails
+
+
 def run(ctx):
     import multiprocessing
     depth = 3 if ctx.tier == "quick" else 4
@@ -187,6 +251,12 @@ def run(ctx):
     ctx.coverage["evaluations"] += st2.items
     ctx.coverage["distinct_nontrivial"] += len(st2.distinct)
     ctx.coverage["exhaustive_items"] = st2.items
+    # run in the background while nothing else needs the time?  It takes ~10 s of waiting for the driver's busy time-out.
+    lf = locked_db_probe()
+    for sig, what in lf:
+        ctx.report(sig, what, {"kind": "locked-db"})
+    ctx.coverage["locked_database_probes"] = 2
+    ctx.coverage["evaluations"] += 2
 
 
 def search(ctx, broken):
@@ -194,4 +264,9 @@ def search(ctx, broken):
 
 
 def replay(ctx, rep):
+    if (rep.get("replay") or {}).get("kind") == "locked-db":
+        lf = locked_db_probe()
+        for sig, what in lf:
+            print("  %s: %s" % (sig, what))
+        return not lf
     return engine_check.standard_replay(ctx, rep, MONITORS)
